@@ -3,7 +3,7 @@
 From Coq Require Import List Arith Bool Lia ZArith QArith.
 From Coq Require Import String.
 From Verif.C06 Require Import Model.
-From Verif.C01 Require Import Model Proofs Kernel Printer.
+From Verif.C01 Require Import Model Proofs Kernel Kernel2 Printer.
 Import ListNotations.
 Close Scope Q_scope. Open Scope nat_scope.
 
@@ -170,3 +170,61 @@ Example ex_levels :
   = Some (COp nat OSub (COp nat OSub (CConst nat 1) (CConst nat 2))
             (COp nat ODiv (COp nat OMul (CConst nat 3) (CConst nat 4)) (CConst nat 5))).
 Proof. vm_compute. reflexivity. Qed.
+
+(* ---- two phases: t is precomputed into fields[1], w is a kernel-local vector ------------------------------------ *)
+Open Scope string_scope.
+Definition ex_lay2 (n : string) (k : nat) : loc :=
+  if String.eqb n "f" then LField k else if String.eqb n "c" then LConst k
+  else if String.eqb n "t" then LField (1 + k) else LLocal n k.
+Definition ex_pre : list (def Z) := [("t", TS (Op OMul (vr "f" []) (GW 0)))].
+Definition ex_ker : list (def Z) := [("w", TLV [Op OAdd (vr "t" []) (vr "c" []); Op OMul (vr "t" []) (vr "t" [])])].
+Definition ex_G := ["t"; "f"; "c"].
+Close Scope string_scope.
+(* precompute runs WITHOUT basis-function jets (pdv = 0) *)
+Definition ex_nc_pre : nctx Z := mkN Z (fun _ _ => 0%Z) (fun _ => 2%Z) (fun _ x => x).
+(* the kernel's store: what precompute left in fields/constants, garbage (99) in every local *)
+Definition ex_st2 : store Z := fun l =>
+  if is_glob l then run_defs Z Z.add Z.mul Z.sub Z.div Z.opp ex_lay2 ex_shp ex_nc_pre ex_st ex_pre l else 99%Z.
+Example ex_two_phase_hyps :
+  wf_prog Z ex_lay2 ex_shp ex_sz ex_known ex_pre /\ nobf_defs Z ex_pre /\ incl ex_G (names_after Z ex_known ex_pre)
+  /\ (forall n k, In n ex_G -> is_glob (ex_lay2 n k) = true) /\ wf_prog Z ex_lay2 ex_shp ex_sz ex_G ex_ker
+  /\ Forall (wfe Z ex_shp ex_sz (names_after Z ex_G ex_ker)) ex_es.
+Proof.
+  split; [|split; [|split; [|split; [|split]]]].
+  - simpl. split; [|split; [intros [H|[H|[]]]; discriminate | exact I]].
+    eexists; eexists. split; [vm_compute; reflexivity|]. split; [vm_compute; reflexivity|].
+    split; [repeat (apply Forall_cons); try apply Forall_nil; vm_compute; repeat split; auto 10 | split; reflexivity].
+  - repeat constructor.
+  - intros x Hx. vm_compute in Hx |- *. tauto.
+  - intros n k [H|[H|[H|[]]]]; subst n; reflexivity.
+  - simpl. split; [|split; [intros [H|[H|[H|[]]]]; discriminate | exact I]].
+    eexists; eexists. split; [vm_compute; reflexivity|]. split; [vm_compute; reflexivity|].
+    split; [repeat (apply Forall_cons); try apply Forall_nil; vm_compute; repeat split; auto 10 | split; reflexivity].
+  - repeat (apply Forall_cons); try apply Forall_nil; vm_compute; repeat split; auto 10.
+Qed.
+Example ex_two_phase_values :
+  match omap (compile Z ex_lay2 ex_shp) ex_es with
+  | Some cs => map (ceval Z Z.add Z.mul Z.sub Z.div Z.opp ex_nc
+                      (run_defs Z Z.add Z.mul Z.sub Z.div Z.opp ex_lay2 ex_shp ex_nc ex_st2 ex_ker)) cs
+  | None => [] end = [1001%Z; (-5148)%Z]
+  /\ map (eval Z Z.add Z.mul Z.sub Z.div Z.opp (eval_defs Z 0%Z Z.add Z.mul Z.sub Z.div Z.opp ex_en (ex_pre ++ ex_ker))) ex_es
+     = [1001%Z; (-5148)%Z].
+Proof. vm_compute. auto. Qed.
+
+(* ---- symmetric 2x2 variable at offset 3 of `fields`: B = [[5,7],[7,9]]; B[1,0] reads the slot of B[0,1] ----------- *)
+Definition ex_B (i j : nat) : Z := match i, j with 0, 0 => 5%Z | 1, 1 => 9%Z | _, _ => 7%Z end.
+Example ex_sym_store :
+  let st' := write_all Z LField (fun _ => 0%Z) (sym_writes Z 2 3 ex_B) in
+  sym_writes Z 2 3 ex_B = [(3, 5%Z); (4, 7%Z); (5, 9%Z)]
+  /\ st' (LField (3 + sym_index_to_seq 2 1 0)) = 7%Z /\ st' (LField (3 + sym_index_to_seq 2 0 1)) = 7%Z
+  /\ st' (LField 5) = 9%Z /\ st' (LField 6) = 0%Z.
+Proof. vm_compute. auto 10. Qed.
+Example ex_B_symmetric : forall i j, i < 2 -> j < 2 -> ex_B i j = ex_B j i.
+Proof. intros [|[|i]] [|[|j]] Hi Hj; try lia; reflexivity. Qed.
+
+(* ---- vector kernel with 2 components and two integrand vectors ----------------------------------------------------- *)
+Example ex_vec_kernel :
+  let css := [[CConst Z 1%Z; CConst Z 10%Z]; [CGW Z 0; CNeg Z (CConst Z 3%Z)]] in
+  let r := kernel_body_vec Z Z.add Z.mul Z.sub Z.div Z.opp ex_nc ex_st css (fun _ => 0%Z) in
+  r 0 = 3%Z /\ r 1 = 7%Z /\ comp Z 1 css = [CConst Z 10%Z; CNeg Z (CConst Z 3%Z)].
+Proof. vm_compute. auto. Qed.
